@@ -1,6 +1,6 @@
-# sourced by every script: offline Go environment
+# sourced by every script: offline Go environment; VERIF is the directory this file lives under
 export GOFLAGS=-mod=mod GOPROXY=off GOSUMDB=off GOTOOLCHAIN=local
 export GO=go1.26.8
-export VERIF=${VERIF:-/verif}
+export VERIF=${VERIF_ROOT:-$(cd "$(dirname "${BASH_SOURCE[0]}")/.." && pwd)}
 export REPO=${REPO:-/repo}
 export WORK=$VERIF/.work
